@@ -56,7 +56,7 @@ Proof.
 Qed.
 
 Theorem exec_x_trunc m1 m2 ru first rg :
-  mem_le m1 m2 -> (forall a, a < sp rg -> m1 a = m2 a) ->
+  mem_le m1 m2 -> (first = true -> forall a, a < sp rg -> m1 a = m2 a) ->
   trunc_ok (exec ra_addr_checked ru first rg m1) (exec ra_addr_checked ru first rg m2) m1.
 Proof.
   intros Hle Hbelow.
@@ -76,7 +76,8 @@ Proof.
     destruct (m1 loc) as [v|] eqn:E1.
     + rewrite (Hle _ _ E1). apply T.
     + destruct (first && (loc <? sp rg)) eqn:Ef.
-      * assert (Hl : loc < sp rg) by lia. rewrite <- (Hbelow loc Hl), E1. apply T.
+      * assert (Hl : loc < sp rg) by lia. assert (Hf : first = true) by (destruct first; [reflexivity | discriminate]).
+        rewrite <- (Hbelow Hf loc Hl), E1. apply T.
       * unfold trunc_ok. cbn. exact E1.
   - destruct (bp rg =? 0); [reflexivity|].
     destruct (add64c (bp rg) 16); [|reflexivity].
